@@ -522,6 +522,13 @@ def close(impl, model, tol=TOL, inf_sign=True):
         # the two differ in every digit.  Same stated gap, counted, not compared.
         FLOAT_CANCELLATION["skipped"] += 1
         return True
+    if isinstance(e, str) and e in ("inf", "-inf", "nan") and isinstance(m, Fraction) and abs(m) >= 10 ** 11:
+        # the mirror image (found with VERIF_SEED=5, C20: smoothed scale mean of a difference column):
+        # the float64 denominator cancels to exactly 0.0 (quotient +-inf / nan) while the exact sum of
+        # the same float inputs is a residue of the order 1e-17, so the model's quotient is
+        # astronomically large instead of infinite.  Same stated gap, counted, not compared.
+        FLOAT_CANCELLATION["skipped"] += 1
+        return True
     if isinstance(m, str) or isinstance(e, str):
         if not inf_sign and isinstance(m, str) and isinstance(e, str):
             return m.lstrip("-") == e.lstrip("-")
